@@ -8,6 +8,7 @@ import (
 	"encoding/json"
 	"flag"
 	"fmt"
+	"go/types"
 	"os"
 	"path/filepath"
 	"sort"
@@ -80,16 +81,22 @@ func main() {
 
 	// normalisation: undo extract-function refactorings (see internal/normalize)
 	var normNotes []string
-	if !*noNorm && *dump != "@vocab" {
+	base := prog
+	normalise := func(keep func(*ssa.Function) bool, tag string) (*load.Program, map[string][]byte, int) {
+		pr := base
 		cur := map[string][]byte{}
 		for k, v := range ov {
 			cur[k] = v
 		}
 		counter := 0
+		kept := 0
 		for round := 0; round < 5; round++ {
-			res := normalize.Round(prog, rules.CanonicalName(prog), cur, &counter)
+			res := normalize.RoundKeep(pr, rules.CanonicalName(pr), cur, &counter, keep)
 			for _, sk := range res.Skipped {
-				normNotes = append(normNotes, "left alone: "+sk)
+				normNotes = append(normNotes, tag+"left alone: "+sk)
+				if strings.Contains(sk, "kept as a call") {
+					kept++
+				}
 			}
 			if len(res.Overlay) == 0 {
 				break
@@ -103,7 +110,7 @@ func main() {
 			}
 			prog2, err2 := load.Load(load.Options{Dir: *repo, Overlay: next, GOARCH: *goarch})
 			if err2 != nil {
-				normNotes = append(normNotes, fmt.Sprintf("normalisation round %d abandoned (overlay does not type-check: %v)", round+1, err2))
+				normNotes = append(normNotes, fmt.Sprintf("%snormalisation round %d abandoned (overlay does not type-check: %v)", tag, round+1, err2))
 				if *showNorm {
 					for k, v := range res.Overlay {
 						fmt.Printf("==== %s\n%s\n", k, v)
@@ -111,11 +118,16 @@ func main() {
 				}
 				break
 			}
-			prog, cur = prog2, next
+			pr, cur = prog2, next
 			for _, in := range res.Inlined {
-				normNotes = append(normNotes, "inlined for analysis: "+in)
+				normNotes = append(normNotes, tag+"inlined for analysis: "+in)
 			}
 		}
+		return pr, cur, kept
+	}
+	if !*noNorm && *dump != "@vocab" && *dump != "@fields" {
+		var cur map[string][]byte
+		prog, cur, _ = normalise(nil, "")
 		if *showNorm {
 			for k, v := range cur {
 				fmt.Printf("==== %s\n%s\n", k, v)
@@ -126,10 +138,61 @@ func main() {
 			return
 		}
 	}
+	// second variant, built on demand: new helpers that are predicates (one bool result) stay calls. Both
+	// variants are the same program up to inlining, so a rule that is discharged on either is discharged.
+	var progB *load.Program
+	triedB := false
+	variantB := func() *load.Program {
+		if triedB || *noNorm {
+			return progB
+		}
+		triedB = true
+		isPred := func(f *ssa.Function) bool {
+			if f.Signature.Results().Len() != 1 {
+				return false
+			}
+			b, ok := f.Signature.Results().At(0).Type().Underlying().(*types.Basic)
+			return ok && b.Kind() == types.Bool
+		}
+		pb, _, kept := normalise(isPred, "[variant B] ")
+		if kept > 0 {
+			progB = pb
+		}
+		return progB
+	}
+	runRule := func(r *rules.Rule) ([]report.Obligation, []string) {
+		obs, an := rules.RunRule(prog, r)
+		bad := func(os []report.Obligation) int {
+			n := 0
+			for _, o := range os {
+				if o.Status != report.Discharged {
+					n++
+				}
+			}
+			if len(os) < r.Floor {
+				n++
+			}
+			return n
+		}
+		if bad(obs) == 0 {
+			return obs, an
+		}
+		if pb := variantB(); pb != nil {
+			obsB, anB := rules.RunRule(pb, r)
+			if bad(obsB) < bad(obs) {
+				return obsB, anB
+			}
+		}
+		return obs, an
+	}
 	normNotes = append(normNotes, rules.CanonNotes(prog)...)
 
 	if *dump == "@vocab" {
 		dumpVocab(prog)
+		return
+	}
+	if *dump == "@fields" {
+		dumpFields(prog)
 		return
 	}
 	if *dump != "" {
@@ -167,7 +230,7 @@ func main() {
 			if r == nil {
 				fatal("CHECK-ERROR unknown rule %s", id)
 			}
-			obs, _ := rules.RunRule(prog, r)
+			obs, _ := runRule(r)
 			if len(obs) < r.Floor {
 				obs = append(obs, report.Obligation{Rule: r.ID, Construct: "floor", Pos: "-", Status: report.Violated,
 					Detail: fmt.Sprintf("only %d instances, floor is %d", len(obs), r.Floor)})
@@ -211,7 +274,7 @@ func main() {
 		knownHits  []string
 	)
 	for _, r := range rs {
-		allRuleObs, an := rules.RunRule(prog, r)
+		allRuleObs, an := runRule(r)
 		var obs []report.Obligation
 		for _, o := range allRuleObs {
 			if o.AppliesTo(*prop) {
